@@ -23,6 +23,12 @@ impl Prop for C01 {
     fn execute(case: &History, ctx: &mut Ctx) -> Verdict {
         history::execute(case, Mode::Shape, ctx)
     }
+    fn fuzz_sanitize(case: &mut History) -> bool {
+        if case.elem == ElemKind::Bx {
+            case.elem = ElemKind::Tr;
+        }
+        history::sanitize(case)
+    }
     fn essential_classes() -> &'static [&'static str] {
         &["passes-through-empty", "interleaves-axes", "has-rejected-call", "drain-partial", "regrows-from-empty", "op-in-window"]
     }
@@ -44,6 +50,12 @@ impl Prop for C05 {
     }
     fn execute(case: &History, ctx: &mut Ctx) -> Verdict {
         history::execute(case, Mode::Drops, ctx)
+    }
+    fn fuzz_sanitize(case: &mut History) -> bool {
+        if case.elem == ElemKind::U32 {
+            case.elem = ElemKind::Bx;
+        }
+        history::sanitize(case)
     }
     fn essential_classes() -> &'static [&'static str] {
         &["panic-free-history", "drain-partial", "conversion", "Zs", "Bx", "Tr"]
